@@ -628,4 +628,123 @@ theorem steps_entry_outcome {e : DiffEntry} :
         exact ⟨v, hv, steps_leaf_preserved (materialize_ne_dir v) es (step u e) hg hne⟩
     · exact ih (step u e') hnd.2 h
 
+
+
+/-! ### file states and skips along a sequence of steps -/
+
+theorem step_states {u : UState} {e : DiffEntry} {act : Action} (hl : (step u e).log = (e.path, act) :: u.log) :
+    (act = .removed → (step u e).states = sdel e.path u.states) ∧
+    (act ≠ .removed → (step u e).states = sins e.path u.states) := by
+  cases hc : createParentDirs u.disk [] e.path with
+  | none =>
+    rw [step_skipParent hc] at hl ⊢
+    simp at hl; subst hl
+    exact ⟨by simp, fun _ => rfl⟩
+  | some d1 =>
+    by_cases hif : (!(prepared u e d1).1 && (get (prepared u e d1).2 e.path).isSome) = true
+    · rw [step_some hc, if_pos hif] at hl ⊢
+      simp at hl; subst hl
+      exact ⟨by simp, fun _ => rfl⟩
+    · rw [step_some hc, if_neg hif] at hl ⊢
+      cases ha : e.after with
+      | none =>
+        simp only [ha] at hl ⊢
+        simp at hl; subst hl
+        exact ⟨fun _ => trivial, by simp⟩
+      | some v =>
+        simp only [ha] at hl ⊢
+        simp at hl; subst hl
+        exact ⟨by simp, fun _ => trivial⟩
+
+def NoSkips (log : List (Path × Action)) : Prop :=
+  ∀ p, (p, Action.skipParent) ∉ log ∧ (p, Action.skipExists) ∉ log
+
+theorem noSkips_of_skipCount_zero : ∀ {log : List (Path × Action)}, skipCount log = 0 → NoSkips log := by
+  intro log
+  induction log with
+  | nil => intro _ p; simp
+  | cons a r ih =>
+    obtain ⟨q, act⟩ := a
+    intro h p
+    cases act with
+    | skipParent => simp [skipCount] at h
+    | skipExists => simp [skipCount] at h
+    | removed =>
+      simp only [skipCount] at h
+      have := ih h p
+      simp [this.1, this.2]
+    | written x =>
+      simp only [skipCount] at h
+      have := ih h p
+      simp [this.1, this.2]
+
+/-- with no skipped entry: the file-state keys after the steps -/
+theorem steps_states_noskip :
+    ∀ (es : List DiffEntry) (u : UState), (es.map (·.path)).Nodup → NoSkips (steps u es).log → ∀ q,
+      q ∈ (steps u es).states ↔
+        if (∃ e ∈ es, e.path = q) then (∃ e ∈ es, e.path = q ∧ e.after ≠ none) else q ∈ u.states := by
+  intro es
+  induction es with
+  | nil => intro u _ _ q; simp [steps]
+  | cons e es ih =>
+    intro u hnd hns q
+    simp only [List.map_cons, List.nodup_cons] at hnd
+    simp only [steps] at hns ⊢
+    rw [ih (step u e) hnd.2 hns q]
+    obtain ⟨act, hl⟩ := step_log u e
+    have hmem : (e.path, act) ∈ (steps (step u e) es).log := log_mono es _ (by rw [hl]; exact List.mem_cons_self ..)
+    have hact : act = .removed ∨ ∃ x, act = .written x := by
+      cases act with
+      | skipParent => exact absurd hmem (hns e.path).1
+      | skipExists => exact absurd hmem (hns e.path).2
+      | removed => exact Or.inl rfl
+      | written x => exact Or.inr ⟨x, rfl⟩
+    obtain ⟨_, hw, hr⟩ := step_acts_only_below_dirs hl hact
+    obtain ⟨hs1, hs2⟩ := step_states hl
+    by_cases hq : ∃ e' ∈ es, e'.path = q
+    · have hne : e.path ≠ q := by
+        intro heq; obtain ⟨e', he', hp⟩ := hq
+        exact hnd.1 (List.mem_map.mpr ⟨e', he', by rw [hp, heq]⟩)
+      have h1 : ∃ e' ∈ e :: es, e'.path = q := by
+        obtain ⟨e', he', hp⟩ := hq; exact ⟨e', List.mem_cons_of_mem _ he', hp⟩
+      simp only [hq, h1, if_true]
+      constructor
+      · rintro ⟨e', he', hp, ha⟩; exact ⟨e', List.mem_cons_of_mem _ he', hp, ha⟩
+      · rintro ⟨e', he', hp, ha⟩
+        rcases List.mem_cons.mp he' with h | h
+        · subst h; exact absurd hp hne
+        · exact ⟨e', h, hp, ha⟩
+    · simp only [hq, if_false]
+      by_cases heq : e.path = q
+      · subst heq
+        have h1 : ∃ e' ∈ e :: es, e'.path = e.path := ⟨e, List.mem_cons_self .., rfl⟩
+        simp only [h1, if_true]
+        rcases hact with h | ⟨x, h⟩
+        · subst h
+          rw [hs1 rfl]
+          have := (hr rfl).1
+          constructor
+          · intro hm; exact absurd rfl (mem_sdel.mp hm).2
+          · rintro ⟨e', he', hp, ha⟩
+            rcases List.mem_cons.mp he' with h | h
+            · subst h; exact absurd this ha
+            · exact absurd ⟨e', h, hp⟩ hq
+        · subst h
+          rw [hs2 (by simp)]
+          obtain ⟨⟨v, hv, _⟩, _, _⟩ := hw x rfl
+          constructor
+          · intro _; exact ⟨e, List.mem_cons_self .., rfl, by rw [hv]; simp⟩
+          · intro _; exact mem_sins.mpr (Or.inl rfl)
+      · have h1 : ¬ ∃ e' ∈ e :: es, e'.path = q := by
+          rintro ⟨e', he', hp⟩
+          rcases List.mem_cons.mp he' with h | h
+          · subst h; exact heq hp
+          · exact hq ⟨e', h, hp⟩
+        simp only [h1, if_false]
+        have hqe : q ≠ e.path := fun h => heq h.symm
+        rcases hact with h | ⟨x, h⟩
+        · subst h; rw [hs1 rfl, mem_sdel]; simp [hqe]
+        · subst h; rw [hs2 (by simp), mem_sins]; simp [hqe]
+
+
 end JjModel.WorkingCopy
